@@ -65,6 +65,33 @@ def install_watchdog():
     signal.signal(signal.SIGVTALRM, _on_timer)
 
 
+def in_child(fn, *args):
+    """Run fn(*args) in a forked child of this process and return its (picklable) result, or None if the
+    child died.  Used where one history must start from the module state of the parent (which never runs
+    the operations itself), so that histories are independent of each other."""
+    import pickle
+    rfd, wfd = os.pipe()
+    pid = os.fork()
+    if pid == 0:
+        code = 0
+        try:
+            os.close(rfd)
+            res = fn(*args)
+            with os.fdopen(wfd, 'wb') as f:
+                pickle.dump(res, f)
+        except BaseException:
+            code = 3
+        finally:
+            os._exit(code)
+    os.close(wfd)
+    with os.fdopen(rfd, 'rb') as f:
+        data = f.read()
+    os.waitpid(pid, 0)
+    if not data:
+        return None
+    return pickle.loads(data)
+
+
 def run_guarded(fn, *args, **kwargs):
     """Run fn under a CPU-time budget.  Returns ('ok', value) | ('exc', exception) |
     ('timeout', None).  CPU time (ITIMER_VIRTUAL) is immune to machine load."""
@@ -185,6 +212,9 @@ def _worker_run(ishard):
     try:
         _MOD.run_shard(shard, _TIER, acc)
         err = None
+        for v in acc.violations:
+            v['shard'] = shard
+            v['tier'] = _TIER
     except CaseTimeout:
         err = 'CaseTimeout escaped run_shard (shard %r)' % (shard,)
     except BaseException:
@@ -209,8 +239,11 @@ def run_shards(mod, tier, shards, seed=0, nproc=None):
                 errors.append(err)
         return merged, errors
     ctx = multiprocessing.get_context('fork')
+    # one forked process per shard: every shard starts from the state of the parent (which has planned but never run a
+    # case), so whatever state a violation depends on was built inside its own shard and re-running that shard in a
+    # fresh interpreter reproduces it
     pool = ctx.Pool(min(nproc, len(order)), initializer=_worker_init,
-                    initargs=(mod.__name__, tier))
+                    initargs=(mod.__name__, tier), maxtasksperchild=1)
     try:
         for i, acc, err, dt in pool.imap_unordered(_worker_run, order, chunksize=1):
             merged.merge(acc)
@@ -321,6 +354,18 @@ def run_check(mod, tier, seed):
                 confirmed = (v, path)
                 break
         if confirmed is None:
+            # history-dependent within its shard: re-run the whole shard in a fresh interpreter and look for the same case
+            for v in cands[:2]:
+                if v.get('shard') is None:
+                    continue
+                v2 = dict(v, replay_mode='shard')
+                path = write_replay(v2)
+                ok, out = confirm_in_fresh_interpreter(path)
+                tried.append((path, out))
+                if ok:
+                    confirmed = (v2, path)
+                    break
+        if confirmed is None:
             harness_errors.append('violation did not reproduce in a fresh interpreter (history-dependent?): %s\n%s'
                                   % (tried[0][0], tried[0][1][-1500:]))
             continue
@@ -394,13 +439,33 @@ def run_check(mod, tier, seed):
     return 2 if harness_errors else 0
 
 
+def _untuple(x):
+    """JSON turns the tuples of a shard descriptor into lists: turn them back (shards are nested tuples of scalars)."""
+    if isinstance(x, list):
+        return tuple(_untuple(y) for y in x)
+    return x
+
+
 def run_replay(mod, path, quiet=False):
     with open(path) as f:
         viol = json.load(f)
     install_watchdog()
     sys.setrecursionlimit(3000)
-    got = mod.replay(viol['check'], viol['case'])
     want = json.dumps(viol['signature'], sort_keys=True)
+    if viol.get('replay_mode') == 'shard':
+        # the case depends on what its shard executed before it: same start state (plan only), same shard, same order
+        tier = viol.get('tier', 'quick')
+        mod.plan(tier)
+        acc = Acc()
+        shard = viol['shard']
+        shard = _untuple(shard)
+        mod.run_shard(shard, tier, acc)
+        wc = json.dumps(viol['case'], sort_keys=True, default=repr)
+        got = [g for g in acc.violations if json.dumps(g['case'], sort_keys=True, default=repr) == wc]
+        if not got:
+            got = [g for g in acc.violations if json.dumps(g['signature'], sort_keys=True) == want][:1]
+    else:
+        got = mod.replay(viol['check'], viol['case'])
     same = [g for g in got if json.dumps(g['signature'], sort_keys=True) == want]
     if not quiet:
         for g in got:
